@@ -179,6 +179,15 @@ def make_history(rng, alg, cfg, nsteps):
             what = rng.choice(['mixed', 'zero_det', 'zero_div_codegen'] + (['graded_keys'] if graded else []))
             st = {'kind': 'raise', 'what': what, 'keys': [list(kx), list(ky)], 'vals': [vals(kx), vals(ky)]}
         steps.append(st)
+        if kind == 'symcall' and rng.random() < 0.6:
+            # a sibling call whose symbolic result differs from the previous one only by -1 versus -2 in its coefficients
+            # (distinct expressions that are easy to confuse when results are memoised by a digest of the expression)
+            op2 = rng.choice(['add', 'sub', 'gp'])
+            first = dict(st, op=op2, vals=[st['vals'][0], ['-1' for _ in ky]])
+            second = dict(st, op=op2, vals=[st['vals'][0], ['-2' for _ in ky]])
+            steps.append(first)
+            steps.append(second)
+            steps.append(first)
     return steps
 
 
